@@ -49,6 +49,13 @@ CHECKS["C19"] = dict(ref="5/C19", text="Every trace event carries the projection
     "mutate any live object' for X in clone, sub-alignment (all windows incl. (0,L)), site selection, transpose, split, unalign, every writer, statistics, "
     "distances, pairwise alignment (incl. the failing ATG path), ORF search; a change of an unrelated object is attributed to the copy-producing operation that links them.",
     note=HEAPNOTE + " Operations the property does not list as copy-producing (Sample, Append, Rarefy) are specified as the code behaves (they share rows).")
+
+CHECKS["C09"] = dict(ref="5/C09", text="SW.tla defines the score of a gapped row pair, Gotoh's optimum (folds) and a brute-force enumeration of every local alignment; "
+    "TLC checks Gotoh = brute force exhaustively on small pairs (MC_SW) and the substitution tables' symmetry/diagonals, generates every pair of sequences up to "
+    "length 3 (thorough: 4) over {A,C,G} under six schemes (match/mismatch and EDNAFULL), the real aligner is run on them and on seeded related pairs (indels, "
+    "flanks, EDNAFULL / EBLOSUM62, random admissible schemes), and TLC validates structure, counts, score = Score(rows) = optimum, inputs unchanged for every event.",
+    note="Bounded: exhaustive for the listed small scopes, sampled beyond. Scores are exact integers (2 x value). Trusted: TLC, CommunityModules.",
+    tech="TLA+ specification of local alignment (Gotoh + brute force, SW.tla); TLC-generated pairs replayed into the Go aligner; recorded events validated by TLC (Trace_SW)")
 NA = []
 def main():
     props = [json.loads(l)["id"] for l in open(os.path.join(V, "properties.jsonl"))]
